@@ -136,6 +136,8 @@ def run_audit(F, only=None):
         st0 = I.new_state()
         try:
             args = entry_args(I, st0, fn, subst)
+            if fn.get('unsafe'):
+                invariants.assume_unsafe_contract(I, st0, key, args)
             starts = invariants.assume_all(I, st0, args)
         except Exception as e:      # fail closed
             A.lost.append((key, None, 'entry construction failed: %r' % (e,)))
